@@ -1,7 +1,7 @@
 (* C12 — profiles made by mkprof contain exactly the selected source rows. *)
 From Coq Require Import List NArith ZArith Bool.
 From PyD Require Import Base.Str Model.Tsdb Model.TsdbFiles Model.TsdbDb Model.Hier Model.Tsql Model.Mkprof
-  Proofs.MkprofP Proofs.TsdbDbP.
+  Proofs.MkprofP Proofs.MkprofP2 Proofs.TsdbDbP.
 Import ListNotations.
 
 (* a profile created from sentence lines: record k is built from line k with
@@ -63,3 +63,13 @@ Print Assumptions C12_distinct_refuted.
 Theorem C12_distinct_no_invention : forall prev l x, In x (distinct_adj prev l) -> In x l.
 Proof. exact distinct_adj_sub. Qed.
 Print Assumptions C12_distinct_no_invention.
+
+(* the duplicate filter of the where path is the identity exactly on selections
+   without equal neighbours: outside F15 the copy holds exactly the selected rows *)
+Theorem C12_distinct_identity : forall l, no_adj_dup None l = true -> distinct_adj None l = l.
+Proof. intros l. exact (distinct_adj_id l None). Qed.
+Print Assumptions C12_distinct_identity.
+
+Theorem C12_distinct_changes_only_then : forall l, no_adj_dup None l = false -> distinct_adj None l <> l.
+Proof. intros l. exact (distinct_adj_changes l None). Qed.
+Print Assumptions C12_distinct_changes_only_then.
